@@ -129,7 +129,7 @@ Definition agree_opt_replay (k : rcase) : bool :=
   list_eqb nd_eqb (map ob_nd (run_rp (rr_cfg k) (flats 0 (rr_forest k)))) (rr_opt_replay k).
 
 (* option sets / forests for which both times are claimed to give the same tree (see Proofs):
-   no call runs exactly the threshold in force or zero time; no depth= trigger; no trace switch *)
+   no call runs zero time; no trace switch; depth= only without -F *)
 Fixpoint calls_of (n : call) : list call := match n with Call _ _ _ ks => n :: flat_map calls_of ks end.
 Definition thresholds (c : cfg) (l : list N) : list N :=
   threshold c :: flat_map (fun f => match q_time (trig_of c f) with Some t => [t] | None => [] end) l.
@@ -143,8 +143,8 @@ Fixpoint mono_thr (c : cfg) (thr : N) (n : call) : bool :=
   end.
 Definition rr_base (c : cfg) (f : list call) : bool :=
   let l := flat_map fns_of f in
-  forallb (fun n => negb (dur n =? 0)%N && forallb (fun t => negb (dur n =? t)%N) (thresholds c l))
-          (flat_map calls_of f)
+  (* calls take time; a call may run exactly a threshold (record keeps `>=`, replay drops `<`: /repo 075e798) *)
+  forallb (fun n => negb (dur n =? 0)%N) (flat_map calls_of f)
   (* -C, `trace` and time= act on calls that -F/-N/-D/depth= hide at replay time but not at record time:
      only compared when no call is hidden *)
   && (negb (caller_filter c || existsb (fun k => q_trace (trig_of c k)) l
